@@ -429,6 +429,9 @@ func verifyAndFillConfig(cfg *ResponseConfig, nowMS int) error {
 	if cfg.MinimumUpdatePeriodS != nil && *cfg.MinimumUpdatePeriodS <= 0 {
 		return fmt.Errorf("minimumUpdatePeriod must be > 0")
 	}
+	if ato := cfg.getAvailabilityTimeOffsetS(); ato < 0 || math.IsNaN(ato) {
+		return fmt.Errorf("availabilityTimeOffset must be >= 0")
+	}
 	if cfg.getAvailabilityTimeOffsetS() > 0 && cfg.LatencyTargetMS == nil {
 		cfg.LatencyTargetMS = Ptr(defaultLatencyTargetMS)
 	}
